@@ -68,8 +68,8 @@ def plan(tier):
         for p in pres:
             if p == "fresh" and k in ("rm", "revert", "prep", "checkpoint"):
                 continue
-            if p == "one" and k in ("rm", "prep"):
-                continue
+            if p in ("one", "reverted") and k in ("rm", "prep"):
+                continue          # no removable member: only head / latest / base (all refused without a system call)
             out.append(mk_vcase(k, p))
     return out
 
@@ -138,7 +138,9 @@ def run_plan(ctx, metabin, victim, vcases, tag="v", only=None):
             drift.append(dict(kind="trace", vc=vc, info=dict(info, note=vc["stage_note"])))
         if dur.get(i) is False:
             concrete.append(dict(kind="durable", vc=vc, info=info))
-        if info["trace_ok"] and not info.get("evaluated") and only is None:
+        if info["trace_ok"] and not info.get("evaluated") and only is None and info["nsys"] > 0:
+            # (an operation refused before its first system call has nothing to kill or fail: model and implementation
+            # agree on the empty trace and on the result of the complete run)
             drift.append(dict(kind="not-evaluated", vc=vc, info=info))
         for r in info["runs"]:
             if "oracle" not in r:
